@@ -370,12 +370,14 @@ class TimeLimit:
     thousands of times that, so it only ever fires on a non-terminating computation, which the
     checks report as "no result" for a documented input (never as a timing judgement)."""
 
-    def __init__(self, seconds=30):
+    def __init__(self, seconds=30, library=True):
         self.seconds = seconds
+        self.library = library  # False: the guarded call is the oracle's own computation, not the library's
 
     def _fire(self, signum, frame):  # pylint: disable=unused-argument
         global HANGS
-        HANGS += 1
+        if self.library:
+            HANGS += 1
         raise NoResult(f"no result within {self.seconds} s")
 
     def __enter__(self):
